@@ -210,7 +210,8 @@ func runDriver(vd string, rp *ReplayFile) {
 		},
 		"isnil": func(name string) bool {
 			v := rp.Observed[name]
-			return v == "null" || strings.Contains(v, "(mk-iface 0") || strings.HasPrefix(v, "(mk-slice null")
+			nullv := rp.Observed["$null"]
+			return v == "null" || (nullv != "" && v == nullv) || strings.Contains(v, "(mk-iface 0") || strings.HasPrefix(v, "(mk-slice null") || (nullv != "" && strings.HasPrefix(v, "(mk-slice "+nullv+" "))
 		},
 		"raw":  func(name string) string { return rp.Observed[name] },
 		"bool": func(name string) string { return rp.Observed[name] },
